@@ -362,5 +362,8 @@ func runC05(r *run) {
 	quoteProbes(r, g, false, nq)
 	// the flag word given as an explicit combination of bits
 	explicitFlagWords(r.violate)
+	// a production process started with DEBUG=1, and one started without HOME: records stay one line each
+	envProbe(r, false, "oneline", "DEBUG=1")
+	envProbe(r, false, "oneline", "-HOME")
 	slog.VerifResetGlobals()
 }
